@@ -10,6 +10,9 @@
 //	         the saved image, parsed again, must validate without error
 //	seq      a grammar image and a utk command line with several saves of the one in-memory tree
 //	         (seq.go); every saved image, parsed again, must validate without error
+//	savedmuts a sound grammar image, a utk command line ending in a save; the saved image must validate and
+//	         every protected single-byte alteration of it (positions from the independent reader of
+//	         harness/props/uefiedit) must end in a parse error or >= 1 validate error (tail.go)
 //	file     a file of the repository (the maintainers' own volume), with alterations of its headers
 //	hex      raw bytes (corpus / hand-made cases), optional alterations "offset:value:class"
 //
@@ -93,6 +96,20 @@ func runValidate(in []byte) vres {
 	tree, class, detail := parseOnly(in)
 	if class != "ok" {
 		return vres{class: class, detail: detail}
+	}
+	return validateTree(tree)
+}
+
+// validateAgain parses once and runs validate twice on the one tree (`utk image validate validate`): the
+// second result.  Validate is a read-only operation of the tool; what it reports on a well-formed image does
+// not depend on how often it has run.
+func validateAgain(in []byte) vres {
+	tree, class, detail := parseOnly(in)
+	if class != "ok" {
+		return vres{class: class, detail: detail}
+	}
+	if first := validateTree(tree); first.class != "ok" {
+		return first
 	}
 	return validateTree(tree)
 }
@@ -384,6 +401,7 @@ func (prop) run(c core.Case) core.Outcome {
 			Exp: fmt.Sprintf("ok ser=%s wf=%s sound=%s spec=%s impl=%s", digLen(in), wf, sound, spec, res.field())})
 		if wf == "1" && sound == "1" {
 			out.Checks = append(out.Checks, noFalseAlarm(res, "wellformed-validates"))
+			out.Checks = append(out.Checks, noFalseAlarm(validateAgain(in), "wellformed-validates-again"))
 		}
 		if wf == "1" {
 			out.Checks = append(out.Checks, pathChecks(img, in, "imgpaths "+c.Args["recipe"])...)
@@ -404,6 +422,7 @@ func (prop) run(c core.Case) core.Outcome {
 		out.Checks = append(out.Checks, core.Check{Tag: "M", What: "imgmuts",
 			Req: "imgmuts " + mutsReq(sub) + " " + c.Args["recipe"], Exp: "ok " + subChars})
 		out.Checks = append(out.Checks, noFalseAlarm(base, "wellformed-validates"))
+		out.Checks = append(out.Checks, noFalseAlarm(validateAgain(in), "wellformed-validates-again"))
 		out.Checks = append(out.Checks, ocs...)
 		// the theorem's vocabulary against the recipe and the implementation's tree (paths.go)
 		out.Checks = append(out.Checks, pathChecks(img, in, "imgpaths "+c.Args["recipe"])...)
@@ -487,6 +506,9 @@ func (prop) run(c core.Case) core.Outcome {
 
 	case "seq":
 		return runSeq(c)
+
+	case "savedmuts":
+		return runSavedMuts(c)
 
 	case "edit":
 		img := hu.ParseRecipe(c.Args["recipe"])
@@ -929,6 +951,9 @@ func editCase(r *rand.Rand) (core.Case, bool) {
 
 func (prop) Gen(r *rand.Rand, tier string) []core.Case {
 	var cs []core.Case
+	if os.Getenv("C09_ONLY") == "round3" { // timing aid: the streams of tail.go only
+		return streamsRound3(r, tier)
+	}
 	cs = append(cs, core.Case{Kind: "file", Op: "file", Args: map[string]string{
 		"path": "integration/roms/ovmfSECFV.fv", "valid": "1", "muts": "headers"}})
 	// the hand-made cases (crafted.go) are stored in corpus/C09 and run first on every check
@@ -979,5 +1004,7 @@ func (prop) Gen(r *rand.Rand, tier string) []core.Case {
 			cs = append(cs, c)
 		}
 	}
+	// round 3 (tail.go): the last slot of a volume, alterations of saved images, read-only visitors before a save
+	cs = append(cs, streamsRound3(r, tier)...)
 	return cs
 }
